@@ -83,15 +83,29 @@ def _call(fn, *a, **k):
             return sut(fn, *a, **k)
 
 
-_CHAIN_KINDS = {"default": ("Log",), "lin": ("Lin",), "log": ("Log",), "loglin": ("Log", "Lin"), "solve": ("Log", "Lin")}
+_CHAIN_KINDS = {"default": ("Log",), "lin": ("Lin",), "log": ("Log",), "loglin": ("Log", "Lin"), "solve": ("Log", "Lin"),
+                "linrel": ("LinRel",), "loglinrel": ("Log", "LinRel")}
+
+
+def chain_classes(chain):
+    """The NumSys tuple of a chain name ('default' and 'solve' have none: the call's own default is used)."""
+    from chempy._eqsys import NumSysLinRel
+    NumSysLin, NumSysLog = _numsys()
+    return {"lin": (NumSysLin,), "log": (NumSysLog,), "loglin": (NumSysLog, NumSysLin), "solve": (NumSysLog, NumSysLin),
+            "linrel": (NumSysLinRel,), "loglinrel": (NumSysLog, NumSysLinRel), "default": (NumSysLog,)}[chain]
+
+
+def elemental_bounds(c0, species):
+    """Per-substance upper bound min_k total_k / n_k over the elements k of the substance (charge excluded): the scale
+    NumSysLinRel divides its unknowns by (chempy: upper_conc_bounds), computed here from the case description."""
+    tot0 = G.totals(c0, species)
+    return [min(tot0[k] / n for k, n in G.COMP[s].items() if k != 0 and n > 0) for s in species]
 
 
 def _root(es, c0, chain, **kw):
-    NumSysLin, NumSysLog = _numsys()
     if chain == "default":
         return _call(es.root, dict(c0), **kw)
-    ns = {"lin": (NumSysLin,), "log": (NumSysLog,), "loglin": (NumSysLog, NumSysLin), "solve": (NumSysLog, NumSysLin)}[chain]
-    return _call(es.root, dict(c0), NumSys=ns, **kw)
+    return _call(es.root, dict(c0), NumSys=chain_classes(chain), **kw)
 
 
 def run_chain(es, c0, chain, **kw):
@@ -121,11 +135,12 @@ def run_chain(es, c0, chain, **kw):
     return np.asarray(x, dtype=float), bool(info["success"]), bool(sane), own
 
 
-def judge_stages(ctx, chain, info):
+def judge_stages(ctx, chain, info, scale=None):
     """Structural clause of 'under each solver chain': the stages the chain actually ran are of the requested
     formulations in the requested order.  Observed on root()'s public info: info['x_vecs'][k] is the k-th stage's
     result as concentrations, info['intermediate_info'][k]['x'] the same point in the stage's own variables - ln c for
-    NumSysLog (x_vec = exp(x), and exp(y) > y for every y, so the two cannot be confused), c itself for NumSysLin.
+    NumSysLog (x_vec = exp(x), and exp(y) > y for every y, so the two cannot be confused), c itself for NumSysLin,
+    c / (elemental upper bound) for NumSysLinRel (`scale` = those bounds, from the case description).
     Nothing is said when the record is absent (conditional_chained drops it) or not finite."""
     import numpy as np
     kinds = _CHAIN_KINDS.get(chain)
@@ -142,7 +157,10 @@ def judge_stages(ctx, chain, info):
             c, y = np.asarray(xv[k], dtype=float), np.asarray(ii[k]["x"], dtype=float)
             if c.shape != y.shape or not (np.all(np.isfinite(c)) and np.all(np.isfinite(y))):
                 return True
-            if np.array_equal(c, y):
+            if kinds[k] == "LinRel" and scale is not None and np.allclose(c, y * np.asarray(scale), rtol=1e-12, atol=0) \
+                    and not np.array_equal(c, y):
+                got.append("LinRel")
+            elif np.array_equal(c, y):
                 got.append("Lin")
             elif np.allclose(c, np.exp(y), rtol=1e-12, atol=0):      # exp() itself is correctly rounded to ~1 ulp
                 got.append("Log")
@@ -193,7 +211,8 @@ class Layout(object):
     Used only to *classify* an established failure for the known-finding matcher."""
 
     def __init__(self, kind, species, nets, Ks, rref_equil=False, rref_preserv=False):
-        self.kind, self.species = kind, list(species)
+        self.relative = (kind == "LinRel")      # same residual vector as Lin, unknowns c / elemental bound
+        self.kind, self.species = ("Lin" if self.relative else kind), list(species)
         N = [[net.get(sp, 0) for sp in species] for net in nets]
         self.lnK = [math.log(k) for k in Ks]
         self.keys = G.comp_keys(species)
@@ -263,7 +282,10 @@ class Layout(object):
             b = [float(v) for v in prow]
             rows_f.append(sum(b[i] * c[i] for i in range(len(c))) - sum(b[i] * c0[sp] for i, sp in enumerate(self.species)))
             rows_J.append([b[i] * c[i] for i in range(len(c))] if self.kind == "Log" else b)
-        return np.array(rows_f), np.array(rows_J)
+        J = np.array(rows_J)
+        if self.relative:
+            J = J * np.asarray(elemental_bounds(c0, self.species))[None, :]
+        return np.array(rows_f), J
 
     def stationarity(self, c0, xs):
         """|J^T f| / (|J|_2 |f|) at the returned point: ~0 means a stationary point of the sum of squares MINPACK's lm
@@ -430,7 +452,7 @@ def check_homog(case, ctx):
         ctx.skip("solver_exception:%s:%s" % (chain, out.type))
         return
     x, success, sane, own = out
-    if getattr(own, "info", None) is not None and not judge_stages(ctx, chain, own.info):
+    if getattr(own, "info", None) is not None and not judge_stages(ctx, chain, own.info, elemental_bounds(M.c0, M.species)):
         return
     if not (success and sane):
         ctx.skip("no_success:" + chain)
